@@ -270,8 +270,9 @@ int fp_smb_basic(const fp_t a) {
 
 #if FP_SMB == BINAR || !defined(STRIP)
 
+/* I can be RLC_DIG when both high digits are zero, keep the shifts defined. */
 #define RLC_LSH(H, L, I)													\
-		(H << I) | (L & -(I != 0)) >> ((RLC_DIG - I) & (RLC_DIG - 1))
+		(H << (I & (RLC_DIG - 1))) | (L & -(I != 0)) >> ((RLC_DIG - I) & (RLC_DIG - 1))
 
 int fp_smb_binar(const fp_t a) {
 	const size_t s = RLC_DIG - 2;
